@@ -544,6 +544,51 @@ def rule_fd_not_merged(rep, units):
     rep.floor('R4-merging-transformers', n, 2)
 
 
+def rule_normalisation_registers(rep, cn):
+    """R5: MinimiseProgram decides clause equivalence by searching a bijection between the VARIABLE sets of two normalised clauses and
+    by comparing their CONSTANT sets.  Every argument kind must therefore be registered: each return of NormalisedClause::normaliseArgument
+    is preceded (in its own branch) by inserting that very name into `variables` or `constants`, or by giving up (fullyNormalised = false)."""
+    fs = [f for f in cn.functions if f.name == 'normaliseArgument' and not f.is_lambda]
+    if not fs:
+        rep.analysis_broken('NormalisedClause::normaliseArgument not found')
+        return
+    f = fs[0]
+    n = 0
+    for r in [m for m in f.walk() if m['k'] == 'ReturnStmt' and kids(m)]:
+        blk = f.parent(r)
+        while blk is not None and blk['k'] != 'CompoundStmt':
+            blk = f.parent(blk)
+        if blk is None:
+            continue
+        n += 1
+        rv = strip(kids(r)[0], casts=True)
+        while rv['k'] in ('ExprWithCleanups', 'MaterializeTemporaryExpr', 'CXXBindTemporaryExpr', 'CXXConstructExpr') and len(kids(rv)) == 1:
+            rv = strip(kids(rv)[0], casts=True)
+        rkey = expr_key(rv)
+        before = []
+        for st in kids(blk):
+            if any(x is r for x in walk(st)):
+                break
+            before.append(st)
+        reg = None
+        for st in before:
+            for m in walk(st):
+                if is_call(m, 'insert') and expr_key(call_obj(m)).split('.')[-1] in ('variables', 'constants'):
+                    a = strip(call_args(m)[0], casts=True)
+                    while a['k'] in ('ExprWithCleanups', 'MaterializeTemporaryExpr', 'CXXBindTemporaryExpr', 'CXXConstructExpr') and len(kids(a)) == 1:
+                        a = strip(kids(a)[0], casts=True)
+                    if expr_key(a) == rkey or (a['k'] == 'StringLiteral' and rv['k'] == 'StringLiteral' and a.get('str') == rv.get('str')):
+                        reg = expr_key(call_obj(m)).split('.')[-1]
+                if m['k'] == 'BinaryOperator' and m.get('op') == '=' and expr_key(strip(kids(m)[0], casts=True)).split('.')[-1] == 'fullyNormalised':
+                    reg = 'gives-up'
+        kind = next((t.split('::')[-1] for a in f.ancestors(r) if a['k'] == 'IfStmt' for m in walk(kids(a)[0]) if is_call(m) and m.get('cn') in ('as', 'isA')
+                     for t in (m.get('ta') or [])), 'other')
+        rep.ob('R5-normalised-arguments-are-registered', 'normaliseArgument/%s' % kind, reg is not None, f.loc(r),
+               '' if reg else 'the normalised name of a %s argument (%s) is returned without being registered in `variables`/`constants`: '
+               'MinimiseProgram\'s bijection test no longer sees it (e.g. `_` is then matched against a repeated variable)' % (kind, rkey[:40]))
+    rep.floor('R5-normalised-argument-kinds', n, 7)
+
+
 def analyse(rep, everything=False):
     us = facts.extract(UNITS)
     rep.add_units(us)
@@ -562,6 +607,9 @@ def analyse(rep, everything=False):
     sc, = facts.extract([('src/ast/transform/SemanticChecker.cpp', r'transform/SemanticChecker\.cpp$', r'checkInlining')])
     rep.add_units([sc])
     rule_inline_inventory(rep, sc)
+    cn, = facts.extract([('src/ast/analysis/ClauseNormalisation.cpp', r'analysis/ClauseNormalisation\.cpp$', r'NormalisedClause::')])
+    rep.add_units([cn])
+    rule_normalisation_registers(rep, cn)
     if everything:
         # who-may-eliminate: any other transformer reaching Program::removeRelation gets the same obligation
         known = {os.path.basename(x[0]) for x in UNITS}
@@ -579,6 +627,8 @@ def analyse(rep, everything=False):
 
 
 MUTANTS = [
+    ('unnamed-variable-not-registered', 'src/ast/analysis/ClauseNormalisation.cpp', '''        name << "@min:unnamed:" << countUnnamed++;
+        variables.insert(name.str());''', '''        name << "@min:unnamed:" << countUnnamed++;''', 'R5'),
     ('choice-relations-merged-by-minimise', T + 'MinimiseProgram.cpp', '''    if (!firstRelation->getFunctionalDependencies().empty() ||
             !secondRelation->getFunctionalDependencies().empty()) {
         return false;
